@@ -33,6 +33,9 @@ extern "C" void step_utilize_nested() { body_utilize_nested(ck0, ck1); }   // re
 #endif
 #ifdef VM_PLANS
 extern "C" void step_plan() { body_plan((unsigned) ck0, ck1, ck2, ck3); }        // configuration, plan shape, acting state, action (1 succeed / 2 fail)
+#ifdef VM_PLAN_PAYLOAD
+extern "C" void step_plan_payload() { body_plan_payload((unsigned) ck0, ck1); }   // configuration, task carries a payload (1/0)
+#endif
 #ifdef VM_NESTED_PLANS
 extern "C" void step_plan_nested() { body_plan_nested(ck0); }
 #endif
